@@ -143,7 +143,7 @@ def rel_case(g, props, a_flags, b_flags, suffix="", entries=("",), alphabet=None
     src = relharness.rel_src(cid, a_rel, b_rel, alphabet or refharness.alphabet_for(g), props,
                              state_keys={k: v for k, v in gspec.state_keys(g).items() if k not in (g.get("noinit_keys") or [])},
                              uses_fault=gspec.uses_fault(g), entries=entries,
-                             budget_exprs=count_exprs(g))
+                             budget_exprs=count_exprs(g), left_rec="-support-left-recursion" in a_flags)
     names = ["Harness_" + p for p in props]
     return catcheck.Case(cid, [(a_rel, peg_a, a_flags), (b_rel, peg_b, b_flags)], h_rel, {"h.go": src}, names,
                          tags=g.get("tags", []), peg=peg_a, meta={"a": a_flags, "b": b_flags})
@@ -303,7 +303,9 @@ def check_C09(tier, seed):
             bflags += ["-alternate-entrypoints", ",".join(alt)]
         cases.append(rel_case(g, ["C09"], [], bflags, entries=ents))
     for g in rnd_cat(tier, seed, 24, 250, ("throw",)):
-        cases.append(rel_case(g, ["C09"], [], ["-optimize-grammar"]))
+        ents = g.get("entries") or [""]
+        alt = [e for e in ents if e]
+        cases.append(rel_case(g, ["C09"], [], ["-optimize-grammar"] + (["-alternate-entrypoints", ",".join(alt)] if alt else []), entries=ents))
     twin = rel_case(cat[0], ["TWIN"], [], ["-optimize-grammar"], suffix="_twin")
     catcheck.prepare(w, cases + [twin])
     agg = catcheck.explore(w, rep, cases, "C09", r"Harness_C09$", N, tmo, "rel", seed=seed, validate_pkgs=6 if quick else 20)
@@ -324,7 +326,7 @@ def check_C08(tier, seed):
 
 def check_C16(tier, seed):
     return run_ref_property("C16", tier, seed, cores.budget_catalogue(), ["C16"], 2, 3, tq=120, tt=1800,
-                            flagsets_q=("std",), flagsets_t=("std", "lr"), max_steps=300_000,
+                            flagsets_q=("std",), flagsets_t=("std", "lr"), max_steps=300_000, rnd=(6, 60, ("throw",)),
                             bounds_extra={"budget": "symbolic, 1..24 (1..12 for the non-terminating grammars)", "Memoize": "symbolic"})
 
 
@@ -338,6 +340,9 @@ def check_C06(tier, seed):
     cat = cores.memo_catalogue() + (pc[::4] if quick else pc) + cores.composites() + cores.fail_catalogue() + [g for g in cores.context_catalogue() if not gspec.uses_state(g)]
     cat = cat + rnd_cat(tier, seed, 12, 150)
     cases = [rel_case(g, ["C06"], [], []) for g in cat]
+    # left-recursive parsers: same results under the three options (no evaluation bound is claimed for them)
+    lrf = ["-support-left-recursion"]
+    cases += [rel_case(g, ["C06"], lrf, lrf, suffix="_lr") for g in cores.lr_catalogue() if not gspec.uses_state(g)]
     twin = rel_case(pc[0], ["TWIN"], [], [], suffix="_twin")
     catcheck.prepare(w, cases + [twin])
     agg = catcheck.explore(w, rep, cases, "C06", r"Harness_C06$", N, tmo, "rel", seed=seed, validate_pkgs=6 if quick else 20)
@@ -447,10 +452,10 @@ def check_C07(tier, seed):
     quick = tier == "quick"
     # (a) analysis vs. reflr over the lazily chosen family (harness inside package builder)
     ov = RepoOverlay(w, "builder", "builder", {"zz_verif_c07.go": open(os.path.join(VERIF, "harness", "c07a_builder.go")).read()}, ["Harness_C07a"])
-    menu = 32
+    menu = 34
     if quick:
         rnd = random.Random(seed)
-        pick = sorted(set([0, 1, 4, 6, 8] + rnd.sample(range(menu), 5)))
+        pick = sorted(set([0, 1, 4, 6, 8, 33] + rnd.sample(range(menu), 5)))
     else:
         pick = list(range(menu))
     agg_a = overlay_explore(rep, "C07", ov, "Harness_C07a$", min(pick), max(pick), 300 if quick else 1200, "c07a_family",
@@ -474,7 +479,7 @@ def check_C07(tier, seed):
     # with the flag every cyclic grammar must be accepted or rejected with the leader error, never crash
     agg = merge_agg(agg_a, agg_b)
     std_cov(rep, agg, cases_b + cases_ok,
-            {"family": "2 rules x 2 lazily chosen slots from a menu of 32 (4 terminals + 14 operator shapes x 2 referenced rules) + a fixed nullable rule; first slot of rule A = job argument (%d of 32 in this tier)" % len(pick),
+            {"family": "2 rules x 2 lazily chosen slots from a menu of 34 (4 terminals + 15 operator shapes x 2 referenced rules) + a fixed nullable rule and a fixed throwing rule; first slot of rule A = job argument (%d of 34 in this tier)" % len(pick),
              "runtime_monitor": "input <= %d bytes on %d accepted grammars" % (2 if quick else 3, len(run_b)),
              "cyclic_catalogue": "%d grammars with a first-call cycle: %d rejected without the flag, %d accepted" % (len(cyc), len(rejected_cyclic), len(accepted_cyclic))},
             "(a) one state = one lazily completed grammar prefix (all completions of untouched slots at once), compared with the syntactic reference reflr; (b) one state = one input class of a generated parser under the re-entry monitor",
@@ -505,6 +510,8 @@ def c19_grammars(quick):
     out.append(("opt_shared_leaf", hdr + "S <- A B A / B\nA <- 'a' / 'b'\nB <- 'c' A / [d-e]\nU <- 'u'\n", dict(optGrammar=True)))
     out.append(("opt_chain", hdr + "S <- A 'd'\nA <- B 'c'?\nB <- 'a' / 'b'\nC <- 'x' B\nD <- C C\n", dict(optGrammar=True)))
     out.append(("opt_entry", hdr + "S <- A B\nA <- ('a' / 'b') { return 1, nil }\nB <- 'c' A?\nX <- 'x' A\nY <- X B\n", dict(optGrammar=True, altEntry=["A", "X"])))
+    # merged classes with duplicated members of every kind (characters, ranges, Unicode classes)
+    out.append(("opt_class_dups", hdr + "S <- (I / [\\p{Nd}\\p{Ll}\\p{Mn}0-9a])+ J\nI <- [\\p{Lu}\\p{Ll}a-fxy] / [_\\p{Lt}\\p{Lu}a-fyz]\nJ <- [a-c]i / [b-d]i / 'q'i / [\\p{Lu}q]i\n", dict(optGrammar=True)))
     if not quick:
         out.append(("opt_lr", hdr + "E <- E '+' T / T\nT <- N / '(' E ')'\nN <- D D?\nD <- [0-9]\n", dict(optGrammar=True, leftRec=True)))
         out.append(("plain_many", hdr + "S <- A B C D\nA <- 'a' B?\nB <- 'b' C?\nC <- 'c' D?\nD <- 'd' / &{ return true, nil } 'e'\n", dict()))
@@ -629,6 +636,7 @@ def c13_grammars(quick):
         "{package p}\nA<-B 'a'\nB<-x:\"b\"i{return x,nil}\n",
         "A<-[\\p{Nd}\\pLa-c]i [^\\]\\n]\n",
         "A<-[a_-\\pL] [+-\\p{Nd}]i\n",
+        "S<-K V;K<-W K?;V<-W V?\nW<-&{return true,nil}'a'\n",
     ]
     if quick:
         return short
@@ -660,7 +668,14 @@ def check_C13(tier, seed):
     rnd = random.Random(seed)
     if quick:
         stride, off = 4, rnd.randrange(4)
-        args = [gi * maxlen + p for gi, g in enumerate(gs) for p in (range(off % 2, len(g.encode()), 2) if len(g.encode()) <= 30 else range(off, len(g.encode()), stride))]
+        def positions(g):
+            n = len(g.encode())
+            if "&{return true,nil}'a'" in g:
+                # shape grammar (code in a leaf rule inlined into two surviving rules): the unmutated shape matters,
+                # two positions whose mutation mostly keeps the text valid are enough in the quick tier
+                return [g.index("'a'") + 1, g.index("K?") + 1]
+            return range(off % 2, n, 2) if n <= 30 else range(off, n, stride)
+        args = [gi * maxlen + p for gi, g in enumerate(gs) for p in positions(g)]
     else:
         args = [gi * maxlen + p for gi, g in enumerate(gs) for p in range(0, len(g.encode()) - width + 1, 1 if gi < 4 else 3)]
     agg2 = overlay_explore(rep, "C13", ov, "Harness_C13mut$", 0, 0, 120 if quick else 900, "c13_mut", sample_every=197, max_triage=4, args=set(args))
@@ -790,7 +805,8 @@ func Harness_C03rt(n int) {
     agg = merge_agg(agg, overlay_explore(rep, "C03", ov, "Harness_C03comment$", 0, 0, tmo, "c03_comment", sample_every=23, max_triage=3, args=set(lay_args[::2] if quick else lay_args)))
     esc_args = [q * 16 + n for q in (0, 1) for n in ((1, 3, 5) if quick else (1, 3, 5, 9))]
     agg = merge_agg(agg, overlay_explore(rep, "C03", ov, "Harness_C03escape$", 0, 0, tmo, "c03_escape", sample_every=23, max_triage=3, args=set(esc_args)))
-    agg = merge_agg(agg, overlay_explore(rep, "C03", ov, "Harness_C03class$", 0, 3 if quick else 4, tmo, "c03_class", sample_every=23, max_triage=3))
+    cls_args = list(range(0, (3 if quick else 4) + 1)) + [10 * sh + k for sh in range(1, 9) for k in range(1, (2 if quick else 3) + 1)]
+    agg = merge_agg(agg, overlay_explore(rep, "C03", ov, "Harness_C03class$", 0, 0, tmo, "c03_class", sample_every=23, max_triage=3, args=cls_args))
     agg = merge_agg(agg, overlay_explore(rep, "C03", ov, "Harness_C03op$", 0, 0, tmo, "c03_op", sample_every=3, max_triage=3))
     agg = merge_agg(agg, overlay_explore(rep, "C03", ov, "Harness_C03ident$", 1, 2 if quick else 3, tmo, "c03_ident", sample_every=23, max_triage=3))
     agg.pop("_samples", None)
@@ -978,6 +994,8 @@ def check_C04(tier, seed):
     classes = unicode_class_names() + list("LMNCPZS")
     allcls = gspec.grammar("c04_allclasses", [gspec.rule("S", gspec.act(gspec.label("x", gspec.star(gspec.cls(classes=classes))), gspec.b_rec("s")))])
     base = [allcls] + cores.composites()[:3] + cores.state_catalogue()[:2] + cores.throw_catalogue()[:2] + cores.context_catalogue()[:2] + cores.fault_catalogue()[:1]
+    base += [g for g in cores.opt_catalogue() if g["name"].startswith(("og_sharedcode", "og_entry"))]
+    base += rnd_cat(tier, seed, 6, 40, ("state", "throw"))
     if not quick:
         base += cores.composites()[3:] + cores.state_catalogue()[2:8] + cores.throw_catalogue()[2:] + cores.opt_catalogue()[::3] + cores.pair_core()[::10]
     flag_bits = [("-optimize-parser", "o"), ("-optimize-grammar", "g"), ("-optimize-basic-latin", "b"), ("-support-left-recursion", "l"), ("-nolint", "n")]
@@ -990,6 +1008,10 @@ def check_C04(tier, seed):
         for mask in masks:
             flags = [f for k, (f, _) in enumerate(flag_bits) if mask >> k & 1]
             tag = "".join(c for k, (_, c) in enumerate(flag_bits) if mask >> k & 1) or "none"
+            alt = [e for e in (g.get("entries") or []) if e]
+            if alt:
+                flags = flags + ["-alternate-entrypoints", ",".join(alt)]
+                tag += "_e" + "".join(alt)
             FLAGSETS["c04_" + tag] = flags
             if gspec.uses_state(g) and not gspec.has_state_block(g) and "-optimize-parser" in flags:
                 continue
@@ -1102,16 +1124,21 @@ def check_C18(tier, seed):
         nat["timeout"] = timed_out
         return nat
     for c_ in cases:
-        c_.harness_names = ["Harness_C18", "Harness_C18native"]
+        c_.harness_names = ["Harness_C18", "Harness_C18native", "Harness_C18abort"]
     catcheck.prepare(w, cases)
     agg = catcheck.explore(w, rep, cases, "C18", r"Harness_C18$", N, tmo, "ref", seed=seed, validate_pkgs=5 if quick else 16, confirm=confirm)
+    # aborted middle call (symbolic expression budget): grammars with rules, labels, state and recovery operators
+    ab = [c_ for c_ in cases if c_.id.startswith(("tr_", "c_", "st_inc_rule", "st_inc_first", "lr_"))]
+    if quick:
+        ab = [c_ for c_ in ab if c_.id.endswith(("_std", "_lr"))][:3] + [c_ for c_ in ab if c_.id.endswith("_opt")][:2]
+    agg = merge_agg(agg, catcheck.explore(w, rep, ab, "C18", r"Harness_C18abort$", N, tmo, "ref", seed=seed, validate_pkgs=3 if quick else 8, confirm=confirm))
     rep.cov.update({
         "explanation": "Goroutine interleavings are not encoded (DESIGN.md §5). Decided by the solver for all pairs of inputs within the bound on the catalogue: (1) during Parse no store, map update or delete targets an object reachable from a package-level variable of the generated package (engine monitor on every Store/MapUpdate/delete); (2) a map is empty when it is handed to sync.Pool.Put and is not read or written again until Pool.Get returns it; (3) Pool.Get returns nondeterministically any pooled map or a fresh one and the result of a Parse is the same as when it ran first. Given 1-3 and the linearizability of sync.Pool (trusted), two concurrent calls share no mutable location: every schedule yields the sequential results and there is no data race - a paper argument, stated as such.",
         "evaluations": agg["paths"], "distinct_nontrivial": agg["completed"], "programs": len(cases),
         "paths": agg["paths"], "queries": agg["queries"], "solver_s": round(agg["solver_s"], 2), "assertions_checked": agg["asserts"],
         "assertions_discharged": agg["discharged"], "counterexamples_from_solver": agg["cex"],
         "cross_validated_paths": agg["validated"], "traces_validated_against_impl": agg["validated_ok"],
-        "bounds": {"input_bytes_max_each": N, "calls": "Parse(b) alone, then Parse(a), then Parse(b) again, Memoize symbolic per call (standard parsers)", "pool": "at most one Get per path deviates from LIFO (fresh map or oldest pooled map)"},
+        "bounds": {"input_bytes_max_each": N, "calls": "Parse(b) alone, then Parse(a), then Parse(b) again, Memoize symbolic per call (standard parsers); second family: the middle call aborted by a symbolic MaxExpressions budget in [1,20]", "pool": "at most one Get per path deviates from LIFO (fresh map or oldest pooled map)"},
         "functions_encoded": RUNTIME_FUNCS + ["sync.Pool model: LIFO list + nondeterministic Get"],
         "rule": "one evaluation = one explored path (pair of input classes x pool choices x options)",
         "stubs_and_intrinsics": agg.get("externals", []),
